@@ -66,9 +66,9 @@ type Sim struct {
 	scriptEvidence [][]byte          // evidence a script wants in the current block
 	progOf         map[string]string // deployed contract address -> program name
 	ties           bool              // tie-prone flavour: stake amounts from a small set
-	bigGas bool // mainnet-scale gas price: some gas limits make gas x price exceed 64 bits
-	scriptKeep *TxSpec // a scripted transaction kept for a later block of the same scenario
-	scriptOldGas uint64 // a scripted scenario's memory of the minimum gas before its proposal
+	bigGas         bool              // mainnet-scale gas price: some gas limits make gas x price exceed 64 bits
+	scriptKeep     *TxSpec           // a scripted transaction kept for a later block of the same scenario
+	scriptOldGas   uint64            // a scripted scenario's memory of the minimum gas before its proposal
 	scriptMiss     [][]byte          // validators a script reports as not having signed the previous block
 }
 
